@@ -36,7 +36,7 @@ def bounds(tier):
             "comment_placements": "none / each single line boundary / all boundaries",
             "sweep": "one character at a time: %d values 'x<c>y' + continuation line ' x<c>y' under field A (c = printable "
                      "ASCII U+0021..U+007E and %d non-ASCII letters) and %d field names 'X<c>Y' with value 'v' (c = "
-                     "printable ASCII except ':'); forms x {plain, comments at all boundaries} and the armor variants"
+                     "printable ASCII except ':') and the two-field paragraphs '<c>Y: v', 'Z: w' (c neither '#' nor '-'); forms x {plain, comments at all boundaries} and the armor variants"
                      % (len(sweep_value_chars()), len(SWEEP_NON_ASCII), len(sweep_name_chars())),
             "blank_lines": {"line_shapes": BLANK_LINES,
                             "leading": "all %d sequences of 0..2 such lines before the first paragraph" % len(blank_seqs(0, 2)),
@@ -67,7 +67,7 @@ def assumptions():
             "sweep: the swept value characters are printable, non-blank characters only - control characters, white "
             "space and the characters str.splitlines cuts at (\\x0b \\x0c \\x1c-\\x1e \\x85 U+2028 U+2029) are not "
             "'printable/UTF-8 values' in the sense of the quantifier; swept field-name characters are the policy set "
-            "U+0021..U+007E without ':' (the swept character is never first, so '#' and '-' are legal)",
+            "U+0021..U+007E without ':', in the middle of the name and - except '#' and '-' - as its first character",
             "blank lines: with the default setting (strict whitespace-separates-paragraphs = True) a line of blanks and "
             "tabs only is a paragraph separator exactly like an empty line (Policy 5.1, Debian bug 715558), and any number "
             "of such lines before the first paragraph or between two paragraphs is skipped; the unchanged library reads "
@@ -108,6 +108,8 @@ def sweep_pars():
     """one-field paragraphs, simplest first: values with one swept character, then field names with one"""
     out = [[("A", "x%sy\n x%sy" % (c, c))] for c in sweep_value_chars()]
     out += [[("X%sY" % c, "v")] for c in sweep_name_chars()]
+    # ... and as the first character of the name, which only '#' and '-' may not be
+    out += [[("%sY" % c, "v"), ("Z", "w")] for c in sweep_name_chars() if c not in "#-"]
     return out
 
 
